@@ -410,6 +410,7 @@ func (r *c25Run) replay(b c25Beh) {
 			r.cdm.Close()
 		}
 	}()
+	abort := false // the worker is not where the model has it: finish this step's checks, then give up the schedule
 	for n, st := range b.Steps {
 		where := fmt.Sprintf("step %d (%s %d)", n+1, st.A, st.C)
 		switch st.A {
@@ -453,7 +454,7 @@ func (r *c25Run) replay(b c25Beh) {
 			r.gate.release()
 			if err := r.gate.wait("cwq.job.popped"); err != nil {
 				r.fail("drift", "", where+": "+err.Error())
-				return
+				abort = true
 			}
 		case "WCut":
 			r.gate.release()
@@ -463,19 +464,19 @@ func (r *c25Run) replay(b c25Beh) {
 			}
 			if err := r.gate.wait(site); err != nil {
 				r.fail("drift", "", where+": "+err.Error())
-				return
+				abort = true
 			}
 		case "WWrite":
 			r.gate.release()
 			if err := r.gate.wait("cwq.job.written"); err != nil {
 				r.fail("drift", "", where+": "+err.Error())
-				return
+				abort = true
 			}
 		case "WDone":
 			r.gate.release()
 			if err := r.gate.wait("cwq.job.done"); err != nil {
 				r.fail("drift", "", where+": "+err.Error())
-				return
+				abort = true
 			}
 		case "Restart":
 			// Close drains the queue through the worker: open the gate for the drain
@@ -517,6 +518,9 @@ func (r *c25Run) replay(b c25Beh) {
 			}
 		}
 		r.readAll(st, "after "+where)
+		if abort {
+			return
+		}
 	}
 }
 
